@@ -12,20 +12,20 @@ HOOK_COMMITS = [line.split()[0] for line in HOOK_COMMITS if " verif hooks" in li
 # id -> (category, technique, level text, level note, design ref)
 CHECKS = {
     "C01": ("exploration", "stateful model-based property testing (proptest) with restarts; reference-model oracle",
-            "Generated call histories (all call shapes, 128 KiB WAL files so roll-over and GC happen within a few ops) with restarts at generated points; before every drop and after every open the full observable state is compared with a naive reference model, byte for byte, and a probe append on every queue checks the next position. Sampling, not proof: it holds on the N histories explored.",
-            "Trusted: the reference model (150 lines, DESIGN.md s.6), the small-file geometry hook (same code, one constant), proptest's generators.", "9/C01"),
+            "Generated call histories (all call shapes, 128 KiB WAL files so roll-over and GC happen within a few ops) with restarts at generated points; at every restart the full observable state after the re-open is compared, byte for byte, with the state observed before the drop (model-free), the re-open must succeed, and a probe append on every queue checks the next position. Sampling, not proof: it holds on the N histories explored.",
+            "Trusted: the public read API as observer, the small-file geometry hook (same code, one constant), proptest's generators; the reference model only resolves generated selectors.", "9/C01"),
     "C05": ("exploration", "stateful model-based property testing (proptest); reference-model oracle after every call",
-            "Every call outcome and every read accessor (range with generated bound pairs, last_position, last_record, list_queues, queue_exists, summary) is compared with the reference model after every single call of generated histories, including calls on missing names, empty batches, retries, past/future positions and future truncations.",
+            "Every call outcome and every read accessor (range with generated bound pairs, last_position, last_record, list_queues, queue_exists, summary) is compared with the reference model after every single call of generated histories, including calls on missing names, empty batches (also through iterators with inexact size hints), retries, past/future positions and future truncations; the model is re-seeded from the observed state at restarts. Thorough adds a coverage-guided libFuzzer target with the same oracle.",
             "Trusted: the reference model; positions < 2^62.", "9/C05"),
     "C13": ("exploration", "stateful property testing (proptest) + I/O-trace invariant per rejected/no-op call",
-            "For every rejected or acknowledged-no-op call in generated histories: zero reported bytes, empty hook trace, byte-identical directory, unchanged observable state, and model-equal state after later restarts.",
+            "For every call whose shape the statement lists (missing / existing queue, past position, retry, empty batch — recognised by the reference model) and whatever the implementation answers: zero reported bytes, empty hook trace, byte-identical directory, unchanged observable state.",
             "Trusted: I/O event hook placement (rolling directory layer), reference model for classifying calls.", "9/C13"),
     "C15": ("exploration", "stateful property testing (proptest); differential oracle: reported bytes vs hook-recorded writes",
             "Per mutating call, wal_bytes_written is compared with the bytes the rolling writer actually received during that call (hook write events), across aimed block/file alignments, roll-over and GC; the hook itself is cross-checked by rebuilding the directory from its events and comparing with the real files.",
             "Trusted: write events are emitted where the rolling writer hands bytes to its BufWriter.", "9/C15"),
     "C16": ("exploration", "stateful property testing (proptest); model-derived bounds on resource_usage after every call",
-            "After every call of generated histories the memory accounting is bracketed by model-derived bounds (names + payload <= used <= names + payload + 64*records; used <= allocated; truncation releases what it evicts; names-only baseline when all queues are empty).",
-            "Trusted: reference model; 64 B/record as the reading of 'small constant'.", "9/C16"),
+            "After every call of generated histories the memory accounting is bracketed by bounds computed from what the log itself returns (names + payload <= used <= names + payload + 64*records; used <= allocated; truncation releases what it evicts; names-only baseline when all queues are empty).",
+            "Trusted: list_queues / range(..) as the measure of retained data; 64 B/record as the reading of 'small constant'.", "9/C16"),
 }
 
 CHECKS.update({
@@ -33,7 +33,7 @@ CHECKS.update({
             "After every truncate / delete_queue / open of generated multi-queue histories the directory listing is compared with an independently computed bound (oldest file any retained record was appended into, file current at call begin); contiguity, ending at the writer's file and disk_used_bytes are checked too.",
             "Trusted: the I/O trace's notion of 'current file'; premature deletion is left to C01.", "9/C06"),
     "C14": ("exploration", "differential property testing (proptest): same concrete history under all 9 persist policies in lock-step",
-            "The same generated call sequence is executed under every policy; outcomes and full observable states are compared after every call and after a final restart against the Always(Flush) run (itself compared with the model).",
+            "The same generated call sequence is executed under every policy (the reference policy twice, as a determinism guard); outcomes, full observable states and disk_used_bytes are compared after every call and after a final restart against the Always(Flush) run.",
             "Trusted: OnDelay exercised at 0, 1 us and 1 h; wall clock not controlled.", "9/C14"),
     "C17": ("exploration", "stateful property testing (proptest) with generated foreign directory entries + metamorphic renumbering",
             "Generated sets of near-miss names, directories and symlinks (each holding a valid WAL image for a phantom queue) are placed in the directory before opens; after histories with roll-over and GC they must be untouched and never read, all names the library touches must be wal-<20 digits>, and an order-preserving renumbering with gaps must recover the same state and continue at max+1.",
@@ -46,10 +46,10 @@ CHECKS.update({
 CHECKS.update({
     "C02": ("fault_enumeration", "crash-point enumeration over a recorded I/O trace of generated histories (proptest) + reference-model oracle + generated continuation",
             "Every effect boundary and aimed/generated byte cuts of every write of each generated history are turned into the directory image a process crash would leave, which the real open() then recovers; the recovered state must be the completed prefix, optionally with the in-flight call (or a partially applied in-flight truncate/delete), a generated continuation + restart must behave as on a never-crashed log, and recovery's own writes are crashed again (depth 2). Exhaustive for traces <= 4000 written bytes; sampled cuts otherwise.",
-            "Trusted: process-crash model (program-order effects, atomic create/set_len/unlink), derivation of OS-level writes from BufWriter occupancy (self-checked against the real directory), reference model.", "9/C02"),
+            "Trusted: process-crash model (program-order effects, atomic create/set_len/unlink), derivation of OS-level writes from BufWriter occupancy (self-checked against the real directory).", "9/C02"),
     "C03": ("fault_enumeration", "crash-point enumeration under two loss models (process crash, power loss) over recorded I/O traces of generated (policy, history) pairs; monotone 'at least as recent' oracle",
             "For every policy family and generated histories with explicit persist calls, each effect boundary (and byte cuts, for process crashes) is turned into the image left by a process crash (buffer lost) or by a power loss (adversarial: all unsynced bytes lost and all unlinks applied; mixed: generated prefixes), and the recovered state must be at least as recent as the last call whose return guarantees persistence under that model.",
-            "Trusted: the power-loss model (per-file fdatasync, dir fsync for names, ordered name-space durability), reference model for S_P, which calls count as persistence points.", "9/C03"),
+            "Trusted: the power-loss model (per-file fdatasync, dir fsync for names, ordered name-space durability), which calls count as persistence points; S_P is the state the live log showed.", "9/C03"),
     "C04": ("fault_enumeration", "stateful property testing (proptest) with a model-free history invariant + crash-point enumeration with probe appends",
             "Watermark invariant (highest position assigned or truncated-to per queue incarnation) computed from real outcomes only, checked on every call/restart of generated histories with idle emptied queues and busy GC-ing queues, and on every enumerated crash image by probing last_position, retry, past and automatic appends on every surviving queue.",
             "Trusted: process-crash model as C02.", "9/C04"),
@@ -58,10 +58,10 @@ CHECKS.update({
             "Trusted: 'up to a CRC-32 collision'; frame layout from hook write events.", "9/C08"),
     "C09": ("fault_enumeration", "single-frame payload/CRC damage enumerated over every frame of the WAL image of generated histories; loss oracle against the reference model",
             "Every frame present in the final image of each generated history is damaged in turn (payload or CRC bytes only); open must succeed and every retained record not written by the damaged entry must be recovered intact.",
-            "Trusted: frame layout and frame->call ownership from hook write events; reference model for the retained set.", "9/C09"),
+            "Trusted: frame layout and frame->call ownership from hook write events; the retained set is what the undamaged log returned.", "9/C09"),
     "C12": ("fault_enumeration", "crash-point enumeration + single-frame damage enumeration over generated batch-heavy histories; all-or-nothing oracle per batch",
             "For batch-dominated generated histories (multi-frame, multi-file entries) every enumerated crash image and every single-frame-damaged image is recovered and EVERY batch of the history must be recovered entirely, not at all, or as the suffix left by a requested truncation.",
-            "Trusted: process-crash model; no queue deletion in these histories so positions identify batches.", "9/C12"),
+            "Trusted: process-crash model; for re-used queue names a recovered record is attributed to a batch by its bytes (only batches with >= 8 pseudo-random bytes per payload are judged).", "9/C12"),
 })
 
 CHECKS.update({
